@@ -251,7 +251,10 @@ func (g *gemExtension) compare(e extension) int {
 			return -1
 		}
 		if ac == versionNumeric {
-			return sgn64(a.int, b.int)
+			if a.int != b.int {
+				return sgn64(a.int, b.int)
+			}
+			continue // The same number spelled differently, such as 1 and 01.
 		}
 		c := strings.Compare(a.str, b.str)
 		if c == 0 {
